@@ -95,6 +95,11 @@ func (c *Client) fault(call *Call) error {
 
 func (s *Store) checkVersion(gvk schema.GroupVersionKind) error {
 	gk := gvk.GroupKind()
+	if gk.Group == "autoscaling" {
+		// a real API server serves HorizontalPodAutoscalers in v1 and v2 whatever version they were written in; the code
+		// under test only reads spec.scaleTargetRef, which is the same in both
+		return nil
+	}
 	if v, ok := s.versions[gk]; ok && v != gvk.Version {
 		return fmt.Errorf("simapi: %s is stored as version %s, access through %s is not modelled", gk, v, gvk.Version)
 	}
